@@ -674,6 +674,106 @@ def h_crs_string_history():
             crs_mod._CRS = saved
 
 
+# ---- E9: the pickle state of a Geometry (GeoJSON) is rebuilt into the same geometry ------------------------------
+def _gj(kind, P):
+    """GeoJSON of the given kind over the symbolic points P (each (x, y) or (x, y, z))"""
+    ring = [P[0], P[1], P[2], P[0]]
+    hole = [P[3], P[4], P[5], P[3]]
+    if kind == "Point":
+        return {"type": "Point", "coordinates": P[0]}
+    if kind == "LineString":
+        return {"type": "LineString", "coordinates": [P[0], P[1], P[2]]}
+    if kind == "Polygon":
+        return {"type": "Polygon", "coordinates": [ring, hole]}
+    if kind == "MultiPoint":
+        return {"type": "MultiPoint", "coordinates": [P[0], P[1]]}
+    if kind == "MultiLineString":
+        return {"type": "MultiLineString", "coordinates": [[P[0], P[1]], [P[2], P[3]]]}
+    if kind == "MultiPolygon":
+        return {"type": "MultiPolygon", "coordinates": [[ring], [hole]]}
+    if kind == "GeometryCollection":
+        return {"type": "GeometryCollection", "geometries": [_gj("Point", P), _gj("LineString", P)]}
+    if kind == "NestedCollection":
+        return {"type": "GeometryCollection", "geometries": [_gj("Polygon", P), _gj("GeometryCollection", P)]}
+    raise ValueError(kind)
+
+
+def _gj_eq2d(a, b):
+    """structural equality of two GeoJSON objects on their first two coordinates"""
+    if isinstance(a, dict) or isinstance(b, dict):
+        if not (isinstance(a, dict) and isinstance(b, dict)) or a.get("type") != b.get("type"):
+            return False
+        ka = "geometries" if "geometries" in a else "coordinates"
+        if ka not in b:
+            return False
+        return _gj_eq2d(a[ka], b[ka])
+    if isinstance(a, (list, tuple)) and isinstance(b, (list, tuple)):
+        if a and not isinstance(a[0], (list, tuple, dict)):
+            return And(ex(a[0]) == ex(b[0]), ex(a[1]) == ex(b[1]), len(b) == 2) if len(b) >= 2 else False
+        if len(a) != len(b):
+            return False
+        rs = [_gj_eq2d(x, y) for x, y in zip(a, b)]
+        if any(r is False for r in rs):
+            return False
+        return And(*rs) if rs else True
+    return False
+
+
+def h_geometry_state(kind, with_z):
+    """Geometry.__setstate__ on the GeoJSON state of every geometry kind (symbolic coordinates,
+    optionally 3-D): the geometry handed to shapely is the same structure with the same x, y"""
+    import odc.geo.geom as gm
+
+    n = 6
+    if symx.concrete_mode():
+        import pickle
+
+        from shapely.geometry import shape
+
+        P = [(Real(f"x{k}"), Real(f"y{k}")) + ((Real(f"z{k}"),) if with_z else ()) for k in range(n)]
+        P = [tuple(float(k_ * 3 + c_) + 0.001 * float(v) for c_, v in enumerate(p)) for k_, p in enumerate(P)]  # spread: valid rings
+        try:
+            g = gm.Geometry(shape(_gj(kind, [p[:2] for p in P])), "epsg:4326")
+            h = pickle.loads(pickle.dumps(g))
+        except Exception:  # noqa: BLE001
+            prove("state_is_rebuilt", False)
+            return
+        prove("state_is_rebuilt", h == g and h.geom_type == g.geom_type)
+        return
+    P = [(Real(f"x{k}"), Real(f"y{k}")) + ((Real(f"z{k}"),) if with_z else ()) for k in range(n)]
+    state = {"geom": _gj(kind, [list(p) for p in P]), "crs": "epsg:4326"}
+    built = []
+    saved = gm.geometry
+
+    class _Shp:
+        def __getattr__(self, k):
+            return getattr(saved, k)
+
+        @staticmethod
+        def shape(gj):
+            built.append(gj)
+            return ("shape", len(built))
+
+        @staticmethod
+        def GeometryCollection(parts):
+            built.append({"type": "GeometryCollection", "geometries": [built[p[1] - 1] for p in parts]})
+            return ("shape", len(built))
+
+    gm.geometry = _Shp()
+    try:
+        g = gm.Geometry.__new__(gm.Geometry)
+        try:
+            g.__setstate__(state)
+        except (AssertionError, ValueError, KeyError, TypeError):
+            prove("state_is_rebuilt", False)
+            return
+    finally:
+        gm.geometry = saved
+    prove("state_is_rebuilt", bool(built) and g.geom == ("shape", len(built)))
+    prove("same_structure_and_xy", _gj_eq2d(state["geom"], built[-1]))
+    prove("crs_kept", str(g.crs) == "EPSG:4326")
+
+
 def setup_crs():
     setup()
     if symx.concrete_mode():
@@ -788,6 +888,10 @@ OBLIGATIONS = [
     Ob("E8_crs_string_history", h_crs_string_history, fixed(), descr="str/hash/token of CRS(spec) do not depend on which other routes (pyproj object, WKT text, authority string of the same CRS) were used before",
        functions=("odc.geo.crs._make_crs_key", "odc.geo.crs._make_crs", "odc.geo.crs.CRS.__init__", "odc.geo.crs.CRS.__hash__"),
        bounds="one CRS definition, three construction routes, histories of 0-2 earlier constructions (symbolic choice)", stubs=("pyproj CRS replaced by an object that hashes like its WKT text and equals any specification of the same definition (pyproj's contract); the replay uses pyproj itself",), setup=setup),
+    Ob("E9_geometry_state", h_geometry_state, fixed(*[dict(kind=k, with_z=z) for k in ("Point", "LineString", "Polygon", "MultiPoint", "MultiLineString", "MultiPolygon", "GeometryCollection", "NestedCollection") for z in (False, True)]),
+       descr="Geometry pickle state (GeoJSON) of every geometry kind, collections included, is rebuilt into the same structure with the same x, y (a z ordinate is dropped: the class is 2-D by its docstring)",
+       functions=("odc.geo.geom.Geometry.__setstate__", "odc.geo.geom.Geometry.__init__", "odc.geo.geom._geojson_to_shapely", "odc.geo.geom.force_2d"),
+       bounds="8 geometry kinds incl. polygon with a hole and nested collections; 6 symbolic points, 2-D or 3-D", stubs=("shapely.geometry.shape recorded (the replay pickles a real Geometry)",), setup=setup),
     Ob("E2_transitive", h_triple, fixed(*[dict(tname=t) for t in ALL]), descr="per type: == transitive over three values", functions=tuple(f"{t}.__eq__" for t in ALL),
        bounds="three values per type", setup=setup, timeout_ms=20000),
     Ob("E3_other_types", h_other_type, fixed(*[dict(tname=t) for t in ALL if t not in ("Shape2d", "BoundingBox")]), descr="never equal to None / int / str / unrelated tuple",
